@@ -21,7 +21,7 @@ RULE = ("MDP / POMDP specs (stochastic, absorbing states, zero-probability entri
         "chain walk for deterministic policy x deterministic MDP. Non-trivial: a trajectory with >=2 steps that hits "
         "the cap or ends in an absorbing state reached through a stochastic transition; distinct by spec hash."
         ' Also: 1000-2048 simulations, roll-outs of 2049 / 2600 steps, caps of 60-900.'
-        " calc_returns on tuples and arrays of several dtypes, twice on the same object (caller's array unchanged).")
+        " calc_returns on tuples and arrays of several dtypes, twice on the same object (caller's array unchanged). Reward sequences of 1025-4300 entries.")
 ASSUMPTIONS = ["the evaluator's own convention is followed: the closing bare state of a roll-out counts as a visit with "
                "return-to-go 0", "the action_value column for the closing step's action None is not asserted"]
 
@@ -234,6 +234,13 @@ def prop_pomdp_rollout(case, ctx, pfx="C14.pomdp"):
 # ------------------------------------------------------------------ returns
 @st.composite
 def return_cases(draw, tier="quick"):
+    if draw(st.integers(0, 249)) == 0:
+        # long reward sequences (beyond any block / matrix size an implementation may work in), expanded from a drawn seed
+        import random
+        r = random.Random(draw(st.integers(0, 2 ** 32)))
+        n = draw(st.sampled_from([1025, 2049, 4097, 4100, 4300]))
+        return {"rewards": [r.randint(-5, 5) for _ in range(n)], "long": True,
+                "gamma": draw(st.sampled_from([{"f": 0.5}, {"f": 0.9}, 1, {"f": 1.0}, {"f": 0.99}]))}
     return {"rewards": draw(st.lists(st.integers(-5, 5), min_size=0, max_size=12)),
             "gamma": draw(st.sampled_from([0, {"f": 0.0}, {"f": 0.5}, {"f": 0.9}, 1, {"f": 1.0}, {"f": 0.25}]))}
 
@@ -250,6 +257,14 @@ def prop_returns(case, ctx):
         acc = rs[t] + gamma * acc
         want[t] = acc
     ctx.check(len(got) == len(rs), "C14.returns.length")
+    if case.get("long"):
+        # thousands of terms: the two summation orders differ by rounding; a misplaced reward differs by >= 1e-3 of a unit
+        bad = [(t, float(x), y) for t, (x, y) in enumerate(zip(got, want)) if not abs(float(x) - y) <= 1e-9 * (1 + abs(y))]
+        ctx.check(not bad, "C14.returns.backward_recursion",
+                  lambda: f"{len(rs)} rewards, gamma {gamma!r}: first differences (t, got, want) {bad[:3]}")
+        ctx.event("long_reward_sequence")
+        ctx.nontrivial(True)
+        return
     for t, (x, y) in enumerate(zip(got, want)):
         ctx.check(abs(float(x) - y) <= 1e-12 * (1 + abs(y)), "C14.returns.backward_recursion",
                   lambda: f"t={t}: {x} vs {y} (rewards {rs}, gamma {gamma!r})")
